@@ -25,7 +25,9 @@ def _cases(tier, rng, dist):
                 yield {"f": "ts", "m": m, "dtype": "int" if sum(cells) % 2 else "float"}
     for R, Ns in ((40, 300), (3, 70001), (300, 3), (17, 1025)) if tier == "quick" else ((40, 300), (3, 70001), (300, 3), (17, 1025), (64, 64), (129, 257)):
         yield {"f": "ts", "big": [R, Ns, rng.randint(0, 10**6)], "m": [[0]], "dtype": rng.choice(["int", "float", "bool"])}
-    yield {"f": "sim", "m": [[rng.randint(0, 1) for _ in range(5)] for _ in range(4)], "ov": "none", "num_perm": 70001, "keep": False, "plus1": True, "seed": rng.randint(0, 10**6), "big": True}
+    from .. import sizes
+    for np_ in [70001] + sizes.extra_sizes(["irr"], [70001], cap=200000, lo=16)[:3]:            # just beyond every integer constant of the source
+        yield {"f": "sim", "m": [[rng.randint(0, 1) for _ in range(5)] for _ in range(4)], "ov": "none", "num_perm": np_, "keep": False, "plus1": True, "seed": rng.randint(0, 10**6), "big": True}
     for _ in range(100 if tier == "quick" else 1000):
         R, Ns = rng.randint(2, 7), rng.randint(1, 8)
         yield {"f": "ts", "m": [[rng.randint(0, 1) for _ in range(Ns)] for _ in range(R)], "dtype": rng.choice(["int", "float", "bool"])}
